@@ -66,6 +66,12 @@ def check(run):
                 last = max(i for i, st in enumerate(plan) if st[0] == "commit" and st[1])
                 plan = list(plan)
                 plan[last] = ("commit", plan[last][1], {"optimize": True})
+            if li == 2 and wi % 3 == 0:
+                # one part of this partition is built in another index and imported with add_reader()
+                plan = list(plan)
+                pi = rng.choice([i for i, st in enumerate(plan) if st[0] == "commit" and st[1]])
+                plan[pi] = ("commit", plan[pi][1], dict(plan[pi][2], **{"import": True}))
+                cfg["imported_part"] = pi
             w = cworld.CWorld(cfg, variant=wi)
             try:
                 try:
